@@ -899,6 +899,150 @@ def fold_flags(ctx, fi, node):
     return T().visit(node)
 
 
+def sentinel_pulls(fi, node):
+    """Explicit iterator protocol brought back to the loop forms (in place; parent links must be set, and are left stale):
+
+    * `it = iter(E)` ... `for x in it:`                                         ->  `for x in E:`
+    * `it = iter(E)` ... `for a in A: b = next(it, S); if b is S: break; ...`   ->  `for a, b in zip(A, E): ...`
+    * `it = iter(E)` ... `while next(it, S) is not S: continue`                 ->  `for _ in E: pass`
+
+    where `it` is bound once, used only there, bound in the same block with only other such bindings in between, and S is a name bound
+    once (in the module or the function) to `object()` - a value no iterator can deliver, so `is S` means "exhausted" exactly."""
+    sentinels = set()
+    for st in fi.module.tree.body:
+        if isinstance(st, ast.Assign) and len(st.targets) == 1 and isinstance(st.targets[0], ast.Name) and \
+                isinstance(st.value, ast.Call) and ast.unparse(st.value) == 'object()':
+            sentinels.add(st.targets[0].id)
+    binds, loads = {}, {}
+    for n in own_nodes(node):
+        if isinstance(n, ast.Name):
+            (binds if isinstance(n.ctx, ast.Store) else loads).setdefault(n.id, []).append(n)
+    for nm, bs in binds.items():
+        par = getattr(bs[0], '_parent', None)
+        if len(bs) == 1 and isinstance(par, ast.Assign) and par.targets == [bs[0]] and ast.unparse(par.value) == 'object()':
+            sentinels.add(nm)
+    sentinels = {s_ for s_ in sentinels if len(binds.get(s_, [])) <= 1}
+    iters = {}
+    for nm, bs in binds.items():
+        par = getattr(bs[0], '_parent', None)
+        if len(bs) == 1 and isinstance(par, ast.Assign) and par.targets == [bs[0]] and isinstance(par.value, ast.Call) and \
+                isinstance(par.value.func, ast.Name) and par.value.func.id == 'iter' and len(par.value.args) == 1 and not par.value.keywords \
+                and len(loads.get(nm, [])) == 1:
+            iters[nm] = par
+
+    def block_of_(st):
+        par = getattr(st, '_parent', None)
+        for fld in ('body', 'orelse', 'finalbody'):
+            blk = getattr(par, fld, None)
+            if isinstance(blk, list) and any(st is x for x in blk):
+                return blk
+        return None
+
+    def adjacent(assign, loop):
+        """assign precedes loop in one block, with only other iter-bindings in between"""
+        blk = block_of_(assign)
+        if blk is None or not any(loop is x for x in blk):
+            return False
+        i, j = [k for k, x in enumerate(blk) if x is assign][0], [k for k, x in enumerate(blk) if x is loop][0]
+        return i < j and all(any(x is a_ for a_ in iters.values()) for x in blk[i + 1:j])
+
+    def is_pull(e, want=None):
+        return isinstance(e, ast.Call) and isinstance(e.func, ast.Name) and e.func.id == 'next' and len(e.args) == 2 and not e.keywords and \
+            isinstance(e.args[0], ast.Name) and e.args[0].id in iters and isinstance(e.args[1], ast.Name) and e.args[1].id in sentinels
+    drop = []
+    for lp in [n for n in own_nodes(node) if isinstance(n, (ast.For, ast.While))]:
+        if isinstance(lp, ast.For) and len(lp.body) >= 3 and not lp.orelse:
+            a0, a1 = lp.body[0], lp.body[1]
+            if isinstance(a0, ast.Assign) and len(a0.targets) == 1 and isinstance(a0.targets[0], ast.Name) and is_pull(a0.value) and \
+                    isinstance(a1, ast.If) and not a1.orelse and len(a1.body) == 1 and isinstance(a1.body[0], ast.Break) and \
+                    isinstance(a1.test, ast.Compare) and len(a1.test.ops) == 1 and isinstance(a1.test.ops[0], ast.Is) and \
+                    ast.unparse(a1.test.left) == a0.targets[0].id and ast.unparse(a1.test.comparators[0]) == a0.value.args[1].id and \
+                    len(binds.get(a0.targets[0].id, [])) == 1:
+                itn = a0.value.args[0].id
+                if adjacent(iters[itn], lp):
+                    lp.target = ast.Tuple(elts=[lp.target, ast.Name(id=a0.targets[0].id, ctx=ast.Store())], ctx=ast.Store())
+                    lp.iter = ast.Call(func=ast.Name(id='zip', ctx=ast.Load()), args=[lp.iter, iters[itn].value.args[0]], keywords=[])
+                    lp.body = lp.body[2:]
+                    drop.append(iters[itn])
+        if isinstance(lp, ast.While) and not lp.orelse and all(isinstance(x, (ast.Continue, ast.Pass)) for x in lp.body):
+            t = lp.test
+            if isinstance(t, ast.Compare) and len(t.ops) == 1 and isinstance(t.ops[0], ast.IsNot) and is_pull(t.left) and \
+                    ast.unparse(t.comparators[0]) == t.left.args[1].id:
+                itn = t.left.args[0].id
+                if adjacent(iters[itn], lp):
+                    new = ast.For(target=ast.Name(id='_', ctx=ast.Store()), iter=iters[itn].value.args[0], body=[ast.Pass()], orelse=[])
+                    ast.copy_location(new, lp)
+                    blk = block_of_(lp)
+                    blk[[k for k, x in enumerate(blk) if x is lp][0]] = new
+                    drop.append(iters[itn])
+    for lp in [n for n in own_nodes(node) if isinstance(n, ast.For)]:
+        it = lp.iter
+        if isinstance(it, ast.Call) and isinstance(it.func, ast.Name) and it.func.id == 'zip' and it.args and isinstance(it.args[0], ast.Name):
+            it = it.args[0]
+            if it.id in iters and not any(iters[it.id] is d for d in drop) and adjacent(iters[it.id], lp):
+                lp.iter.args[0] = iters[it.id].value.args[0]
+                drop.append(iters[it.id])
+        elif isinstance(it, ast.Name) and it.id in iters and not any(iters[it.id] is d for d in drop) and adjacent(iters[it.id], lp):
+            lp.iter = iters[it.id].value.args[0]
+            drop.append(iters[it.id])
+    for a in drop:
+        blk = block_of_(a)
+        if blk is not None:
+            blk[:] = [x for x in blk if x is not a]
+    return bool(drop)
+
+
+def renest_helpers(ctx, nf, depth=2):
+    """A view of nf in which the module-level functions of its own module that it calls (and they call, to `depth`) stand inside it
+    as nested definitions again, their parameters named like the arguments they are called with (where those are plain names and all
+    call sites agree): the reverse of "move a nested function to module level with explicit parameters".  Clauses that look at the
+    nested functions of a factory / method then see the same code in both spellings.  Calls are left as they are."""
+    mod = nf.module
+    node = clone(nf.node)
+    added = set()
+    for _ in range(depth):
+        sites = {}
+        for c in ast.walk(node):
+            if isinstance(c, ast.Call) and isinstance(c.func, ast.Name) and c.func.id not in added:
+                f = ctx.repo.func('%s:%s' % (mod.name, c.func.id), None)
+                if f is not None and not isinstance(f.node, ast.Lambda) and f.parent is None and f.cls is None:
+                    sites.setdefault(c.func.id, (f, []))[1].append(c)
+        if not sites:
+            break
+        new_defs = []
+        for name, (f, calls) in sorted(sites.items()):
+            params = [a.arg for a in f.node.args.args]
+            mapping = {}
+            ok = not f.node.args.vararg and not f.node.args.kwarg and not f.node.args.kwonlyargs
+            for i, p in enumerate(params):
+                argn = set()
+                for c in calls:
+                    a = c.args[i] if i < len(c.args) and not isinstance(c.args[i], ast.Starred) else \
+                        next((k.value for k in c.keywords if k.arg == p), None)
+                    argn.add(a.id if isinstance(a, ast.Name) else None)
+                if len(argn) == 1 and None not in argn:
+                    mapping[p] = argn.pop()
+            fn = clone(f.node)
+            mapping = {p: a for p, a in mapping.items() if p != a and a not in params}
+            if ok and mapping:
+                fn = _Rename(dict(mapping)).visit(fn)
+            new_defs.append(fn)
+            added.add(name)
+        k = 0
+        while k < len(node.body) and isinstance(node.body[k], ast.Expr) and isinstance(node.body[k].value, ast.Constant):
+            k += 1
+        node.body[k:k] = new_defs
+    if not added:
+        return nf
+    ast.fix_missing_locations(node)
+    set_parents(node)
+    node._parent = getattr(nf.node, '_parent', None)
+    out = FuncInfo(node, nf.module, nf.qualname, nf.parent, nf.cls)
+    out.inlined = list(getattr(nf, 'inlined', []))
+    ctx.repo.func_of_node[id(node)] = out
+    return out
+
+
 def normalized(ctx, fi, depth=2, do_canon=True, keep=()):
     """A FuncInfo whose node is a normalised deep copy of fi.node (helpers inlined, canonical spellings)."""
     cache = ctx.__dict__.setdefault('_norm_cache', {})
@@ -932,6 +1076,9 @@ def normalized(ctx, fi, depth=2, do_canon=True, keep=()):
         node = canon(node)
     ast.fix_missing_locations(node)
     set_parents(node)
+    if sentinel_pulls(fi, node):
+        ast.fix_missing_locations(node)
+        set_parents(node)
     node._parent = getattr(fi.node, '_parent', None)
     nf = FuncInfo(node, fi.module, fi.qualname, fi.parent, fi.cls)
     nf.inlined = list(inl.inlined)
